@@ -165,6 +165,26 @@ def real_oracle(run, regs, cols, big_cols):
                     and not (0 <= v1 <= 10):
                 why = f"rating {v1} outside [0, 10]"
             if why is None and reg.lower() != "none":
+                # the decision order: a failed binary criterion gives 0, else
+                # an undefined continuous feature gives -1, else the prediction
+                from nanite.rate.features import IndentationFeatures as IFt
+                import warnings as _w
+                with _w.catch_warnings():
+                    _w.simplefilter("ignore")
+                    fb = IFt.compute_features(mk(), which_type="binary")
+                    fc = IFt.compute_features(mk(), which_type="continuous")
+                if np.any(fb == 0):
+                    if v1 != 0:
+                        why = (f"a binary criterion fails (features {fb}) "
+                               f"but the rating is {v1}, not 0")
+                elif np.any(np.isnan(fc)):
+                    if v1 != -1:
+                        why = (f"a continuous feature is undefined but the "
+                               f"rating is {v1}, not -1")
+                elif v1 in (-1, 0):
+                    why = (f"all criteria pass and all features are defined "
+                           f"but the rating is {v1}")
+            if why is None and reg.lower() != "none":
                 try:
                     v3 = standalone(mk(), reg)
                     if v3 != v1:
